@@ -4,7 +4,16 @@ From LS Require Import Base.Bytes Base.Res Merge.Model Strategy.Model Shadow.Mod
 Open Scope N_scope.
 
 Record lcase := mkLC { lc_cfg : icfg; lc_env : env; lc_acts : list (list action); lc_clock0 : N;
-                       lc_trace : list titem; lc_final : env }.
+                       lc_trace : list titem; lc_final : env;
+                       lc_comm : N;    (* cleaner.GetCommitted(peer) at the end, 0 = none *)
+                       lc_lastb : N    (* lastByInstance[peer] at the end, 0 = none *) }.
+
+Definition peer : bytes := [98].   (* "b": the instance all injected snapshots come from *)
+Fixpoint assoc_get (l : list (bytes * N)) (k : bytes) : N :=
+  match l with
+  | [] => 0
+  | (k0, v) :: l' => if beqb k0 k then v else assoc_get l' k
+  end.
 
 Definition titem_eqb (a b : titem) : bool :=
   match a, b with
@@ -23,7 +32,8 @@ Fixpoint trace_eqb (a b : list titem) : bool :=
 Definition lmodel (c : lcase) : lstate := run (lc_cfg c) (lc_env c) (lc_acts c) (lc_clock0 c).
 Definition lcheck (c : lcase) : bool :=
   let s := lmodel c in
-  trace_eqb (rev (l_trace s)) (lc_trace c) && env_eqb (l_env s) (lc_final c).
+  trace_eqb (rev (l_trace s)) (lc_trace c) && env_eqb (l_env s) (lc_final c)
+  && (assoc_get (l_committed s) peer =? lc_comm c) && (assoc_get (l_last_by s) peer =? lc_lastb c).
 
 (* for the replay file: first position where the traces differ, with both items *)
 Fixpoint first_diff (i : N) (a b : list titem) : option (N * option titem * option titem) :=
@@ -33,7 +43,8 @@ Fixpoint first_diff (i : N) (a b : list titem) : option (N * option titem * opti
   | x :: _, [] => Some (i, Some x, None)
   | [], y :: _ => Some (i, None, Some y)
   end.
-Definition lexplain (c : lcase) := (first_diff 0 (rev (l_trace (lmodel c))) (lc_trace c), env_eqb (l_env (lmodel c)) (lc_final c)).
+Definition lexplain (c : lcase) := (first_diff 0 (rev (l_trace (lmodel c))) (lc_trace c), env_eqb (l_env (lmodel c)) (lc_final c),
+  (assoc_get (l_committed (lmodel c)) peer, lc_comm c), (assoc_get (l_last_by (lmodel c)) peer, lc_lastb c)).
 
 (* coverage: which kinds of steps the run contained *)
 Definition has_point (p : N) (t : list titem) : bool :=
@@ -41,6 +52,7 @@ Definition has_point (p : N) (t : list titem) : bool :=
 Definition lbranch (c : lcase) : N :=
   let t := lc_trace c in
   (if i_native (lc_cfg c) then 0 else 100)
+  + (if i_receive_only (lc_cfg c) then 1000 else 0)
   + (if has_point P_load_begin t then 1 else 0)
   + (if has_point P_send_begin t then 2 else 0)
   + (if has_point P_boot_send t then 4 else 0)
